@@ -385,6 +385,15 @@ static int cs_init(ABT_sched s, ABT_sched_config c)
 static void cs_run(ABT_sched s)
 {
     int cnt = 0;
+    {
+        /* the ULT of a main scheduler cannot be migrated: every kind of request is rejected */
+        ABT_thread self;
+        CHK(ABT_self_get_thread(&self));
+        int r1 = ABT_thread_migrate_to_pool(self, P[1 + rnd(NP - 1)]);
+        int r2 = ABT_thread_migrate(self);
+        EV("\"e\":\"SchedMig\",\"r1\":%d,\"r2\":%d", r1 == ABT_ERR_INV_THREAD ? 1 : r1 == ABT_SUCCESS ? 0 : 2,
+           r2 == ABT_ERR_INV_THREAD ? 1 : r2 == ABT_SUCCESS ? 0 : 2);
+    }
     for (;;) {
         int p = cnt % NP;
         if (p != 0 && rnd(4) == 0) {
